@@ -8,6 +8,30 @@ ALL = ['C%02d' % i for i in range(1, 21)]
 
 # property -> (technique, level text, level note, design ref)
 CLAIMED = {
+    'C01': (
+        'TLC model checking of ShuntingYard.tla (the parser as a token-step '
+        'machine) against Grammar.tla over the prefix tree of all token '
+        'sequences + replay of every sequence into formulas.Parser in several '
+        'spellings + TLC trace validation (ParseTrace.tla) of recorded parses '
+        'of random formulas',
+        'TLC visits every token sequence up to the bound over three alphabets '
+        '(operators/signs/parentheses; functions/separators/arrays; '
+        'references/intersection) and checks in each state that the '
+        'implementation-shaped parser machine agrees with the ideal grammar '
+        '(modulo two named deviations), that the builder receives the '
+        'post-order of the tree, that the rendering re-parses and that '
+        'redundant parentheses change nothing. Every state is an obligation '
+        'replayed on the real parser: accept/reject, exported text, builder '
+        'sequence (hook H2) and value (tree walked with the library\'s own '
+        'operators) in minimal / spaced / lower / mixed-case / redundantly '
+        'parenthesised spellings. Random trees to depth 5 over the whole '
+        'vocabulary are parsed with hooks on and each recorded parse is '
+        'validated step by step by ParseTrace.tla. Bounded: sequence length '
+        '6 (quick) / 7 (thorough).',
+        'Trusted: TLC; Grammar.tla as the statement of Excel\'s grammar; the '
+        'spelling function (harness/parsecheck.py spell) and the abstraction '
+        'of code tokens to spec tokens (c01_random.abstract_tok).',
+        'DESIGN.md 4/C01'),
     'C02': (
         'TLC model checking of XlOps.tla (operator table + order theorems) '
         '+ exhaustive obligation replay into the code + TLC trace validation '
